@@ -66,6 +66,11 @@ def harness_list(tier):
         # entropy streams whose first draw is rejected (negative scalar = "one rejected draw, then this scalar")
         ("H3redraw/T23/2step", [("T23", "A", b"pw1", -3, 1), ("T23", "B", b"pw1", -5, 0), ("T23'", "S", b"pw2", -7, None)], 2),
         ("H2redraw/Params1024/2step", [("Params1024", "A", b"pw1", -3, 1), ("Params1024", "B", b"pw1", 5, 0)], 2),
+        # two symmetric pairs, one with identities and one without, all persisted and restored
+        ("H3sym-ids/T23/4step", [("T23", "S", b"pw1", 3, None, (b"id-one",)), ("T23", "S", b"pw2", 4, None, (b"",)),
+                                 ("T23", "S", b"pw1", 5, None, (b"\x00",))], 4),
+        ("H3asym-ids/T23/4step", [("T23", "A", b"pw1", 3, None, (b"alice", b"")), ("T23", "A", b"pw2", 4, None, (b"", b"")),
+                                  ("T23", "B", b"pw1", 5, None, (b"", b"bob"))], 4),
         # forced collisions: sessions that differ in exactly one thing
         ("H4seeds/T23/2step", [("T23", "A", b"pw1", 3, 1), ("T23", "B", b"pw1", 5, 0), ("T23'", "A", b"pw1", 3, 3), ("T23'", "B", b"pw1", 5, 2)], 2),
         ("H4scalar/T23/2step", [("T23", "A", b"pw1", 3, 1), ("T23", "B", b"pw1", 5, 0), ("T23", "A", b"pw1", 4, 3), ("T23", "B", b"pw1", 6, 2)], 2),
@@ -77,7 +82,9 @@ def harness_list(tier):
         ("H4mix/T23+E109/3step", [("T23", "S", b"pw1", 3, 1), ("T23", "S", b"pw1", 5, 0), ("E109", "A", b"pw2", 6, 3), ("E109", "B", b"pw2", 2, 2)], 3 if not q else 2),
     ]
     if not q:
-        hs += [("H4/T23/3step", [("T23", "A", b"pw1", 3, 1), ("T23", "B", b"pw1", 5, 0), ("T23'", "A", b"pw2", 6, 3), ("T23'", "B", b"pw2", 2, 2)], 3),
+        hs += [("H4sym/T23/3step", [("T23", "S", b"pw1", 3, 1, (b"id-one",)), ("T23", "S", b"pw1", 5, 0, (b"id-one",)),
+                                    ("T23", "S", b"pw2", 4, 3, (b"",)), ("T23", "S", b"pw2", 6, 2, (b"",))], 3),
+               ("H4/T23/3step", [("T23", "A", b"pw1", 3, 1), ("T23", "B", b"pw1", 5, 0), ("T23'", "A", b"pw2", 6, 3), ("T23'", "B", b"pw2", 2, 2)], 3),
                ("H4=/T29/3step", [("T29", "A", b"pw1", 3, 1), ("T29", "B", b"pw1", 5, 0), ("T29", "S", b"pw2", 6, 3), ("T29", "S", b"pw2", 2, 2)], 3),
                ("H3/E109/4step", [("E109", "A", b"pw1", 3, 1), ("E109", "B", b"pw1", 5, 0), ("E109'", "S", b"pw2", 7, None)], 4),
                ("H3/Params3072/2step", [("Params3072", "A", b"pw1", 3, 1), ("Params3072", "B", b"pw1", 5, 0), ("Params3072", "S", b"pw2", 7, None)], 2)]
@@ -98,11 +105,12 @@ class Harness:
 
     def fresh(self):
         ss = []
-        for i, (key, side, pw, x, peer) in enumerate(self.specs):
+        for i, spec in enumerate(self.specs):
+            key, side, pw, x, peer = spec[:5]
             s = Sess()
             s.key, s.inst, s.side, s.pw, s.x, s.peer = key, pinst(key), side, pw, abs(x) % pinst(key).q, peer
             s.redraw = x < 0 and pinst(key).kind == "int"
-            s.ids = C.ids_for(side, i + 1)
+            s.ids = tuple(spec[5]) if len(spec) > 5 else C.ids_for(side, i + 1)
             s.prog, s.obj, s.pc, s.out, s.blob = self.prog, None, 0, [], None
             if peer is None:
                 w = s.inst.ref.pw_scalar(pw)
@@ -241,7 +249,7 @@ class Harness:
         return tuple(snap)
 
     def desc(self):
-        return {"name": self.name, "specs": [[k, s, pw, x, p] for (k, s, pw, x, p) in self.specs], "nsteps": len(self.prog)}
+        return {"name": self.name, "specs": [list(sp[:5]) + ([list(sp[5])] if len(sp) > 5 else []) for sp in self.specs], "nsteps": len(self.prog)}
 
 
 _H = {}
@@ -491,6 +499,9 @@ THREAD_HARNESSES = {
     "TH/E37": [("E37", "A", b"pw1", 3), ("E37", "S", b"pw2", 1)],
     "TH3/T23-three-sessions": [("T23", "A", b"pw1", 3), ("T23", "B", b"pw2", 6), ("T23", "A", b"pw2", 4)],
     "TH3/T23-S": [("T23", "S", b"pw1", 3), ("T23", "S", b"pw2", 6), ("T23", "S", b"pw1", 4)],
+    # entropy streams whose first draw is rejected (negative scalar), different streams in the two threads
+    "TH/T23-redraw": [("T23", "A", b"pw1", -3), ("T23", "B", b"pw2", -6)],
+    "TH/T509-redraw": [("T509", "S", b"pw1", -3), ("T509", "S", b"pw2", -100)],
 }
 
 
@@ -499,13 +510,19 @@ def thread_bodies(hname):
     mk = []
     for k, (key, side, pw, x) in enumerate(specs):
         inst = pinst(key)
-        x = x % inst.q
+        redraw = x < 0 and inst.kind == "int"
+        x = abs(x) % inst.q
         ids = C.ids_for(side, k + 1)
         w = inst.ref.pw_scalar(pw)
         inbound = C.inbound_menu(inst, side, w, x)[0][1]
 
-        def body(inst=inst, side=side, pw=pw, ids=ids, x=x, inbound=inbound):
-            s = inst.new(side, pw, ids, x)
+        def body(inst=inst, side=side, pw=pw, ids=ids, x=x, inbound=inbound, redraw=redraw, k=k):
+            if redraw:
+                R = inst.ref
+                rej = ((1 << (8 * R.ssize)) - 1 - k).to_bytes(R.ssize, "big")      # rejected, and different per thread
+                s = inst.new(side, pw, ids, entropy=T.Script([rej] + R.entropy_for_scalar(x)))
+            else:
+                s = inst.new(side, pw, ids, x)
             m = s.start()
             return (m, s.finish(inbound))
         mk.append(body)
@@ -564,8 +581,9 @@ def _thread_task(task):
 
 def run_threads(acc, tier):
     bound = 1 if tier == "quick" else 2
-    names = ["TH/T23-same-params", "TH/T23-S-S", "TH/T23+T29", "TH/T23+T23'", "TH3/T23-three-sessions"] + \
-            ([] if tier == "quick" else ["TH/T509+T23", "TH/E37", "TH3/T23-S", "TH/T23-same-params@opcode", "TH/T23+T23'@opcode"])
+    names = ["TH/T23-same-params", "TH/T23-S-S", "TH/T23+T29", "TH/T23+T23'", "TH/T23-redraw", "TH3/T23-three-sessions"] + \
+            ([] if tier == "quick" else ["TH/T509+T23", "TH/E37", "TH3/T23-S", "TH/T509-redraw", "TH/T23-same-params@opcode", "TH/T23+T23'@opcode",
+                                         "TH/T23-redraw@opcode"])
     b1 = lambda n: 1 if (n == "TH/E37" or n.startswith("TH3/") or _opc(n)) else bound
     roots = core.pmap(_thread_root_task, [(n, b1(n)) for n in names])
     jobs = []
@@ -627,7 +645,7 @@ def replay(rec):
     r = T.unjson(rec["replay"])
     if r["fn"] == "interleaving":
         d = r["harness"]
-        H = Harness(d["name"], [tuple(s) for s in d["specs"]], d["nsteps"])
+        H = Harness(d["name"], [tuple(s[:5]) + ((tuple(s[5]),) if len(s) > 5 else ()) for s in d["specs"]], d["nsteps"])
         exp = H.isolated()
         ss = H.fresh()
         o = None
@@ -638,7 +656,7 @@ def replay(rec):
         return o
     if r["fn"] == "isolated":
         d = r["harness"]
-        H = Harness(d["name"], [tuple(s) for s in d["specs"]], d["nsteps"])
+        H = Harness(d["name"], [tuple(s[:5]) + ((tuple(s[5]),) if len(s) > 5 else ()) for s in d["specs"]], d["nsteps"])
         a = Acc()
         H.check_isolated(a)
         return sorted(a.viol)
